@@ -470,7 +470,7 @@ def tlc_models(ctx, q):
             return (module, cfgbase, consts, what, expect_ok, res)
         jobs.append(go)
     mc("mem", "LValue", "LValue_mc.cfg", "Level A invariants (free exploration, tiny alphabet)", MaxSteps=1 if q else 2, workers=4)
-    mc("mem", "LValue", "LValue_mc.cfg", "byte loop bound size-1 must be rejected", expect_ok=False, MaxSteps=0, Bound=-1)
+    mc("mem", "LValue", "LValue_mc.cfg", "byte loop bound size-1 must be rejected", expect_ok=False, MaxSteps=0, Bound=1)
     mc("mem", "BitFieldI", "BitFieldI_mc.cfg", "bit-field shift pair / mask-merge refine Level A", R=6 if q else 8, workers=4)
     for v in ("mask_w1", "sar_shr", "shl_off1", "bool_signed", "w64"):
         mc("mem", "BitFieldI", "BitFieldI_mc.cfg", "wrong bit-field variant %s must be rejected" % v, expect_ok=False, R=6 if v != "bool_signed" else 8, Variant='"%s"' % v)
